@@ -1,6 +1,7 @@
 package checks
 
 import (
+	"bytes"
 	"errors"
 	"fmt"
 	"io"
@@ -47,6 +48,9 @@ type c19Env struct {
 	kind string // "none", "tok", "maybe"
 	tok  []byte
 	key  int // index into the key pool of the one key that verifies tok; -1 = no key
+	// undecodable: tok's payload is the encoding of claims this process
+	// cannot decode (see c19Machine.opaque)
+	undecodable bool
 }
 
 var c19Pool = []keyPair{}
@@ -66,7 +70,12 @@ type c19Machine struct {
 	trace                                                    []string
 	sawFailThenVerify, sawDecodeAfterSign, sawFault, sawSign bool
 	lastFailed                                               bool
-	goodSigns                                                int
+	// opaque: the attached claims encode but this process cannot decode
+	// their encoding again (a profile that was never registered here -
+	// attester-only use -, or free text that is not valid UTF-8); the binding
+	// clause is then evaluated on the payload BYTES
+	opaque, sawOpaque, sawExt bool
+	goodSigns                 int
 }
 
 func (mc *c19Machine) log(f string, a ...any) { mc.trace = append(mc.trace, fmt.Sprintf(f, a...)) }
@@ -109,6 +118,13 @@ func (mc *c19Machine) verifyAll(t *rapid.T) {
 				}
 				if !icose.Verify(k.Alg, k.Pub, parts.Protected, parts.Payload, parts.Signature) {
 					mc.fail(t, "library Verify(%s) succeeds but the independent verifier rejects the token the Evidence should hold: it verified something else", k.Name())
+				}
+				if mc.opaque {
+					enc, eerr := psatoken.EncodeClaimsToCBOR(mc.ev.Claims)
+					if eerr != nil || !bytes.Equal(enc, parts.Payload) {
+						mc.fail(t, "Verify(%s) succeeds but the covered payload is not the encoding of the attached claims (%v):\n   payload  %x\n   encoding %x", k.Name(), eerr, parts.Payload, enc)
+					}
+					continue
 				}
 				want, derr := psatoken.DecodeClaimsFromCBOR(parts.Payload)
 				if derr != nil {
@@ -205,18 +221,30 @@ func c19Run(t *rapid.T, st *Stats) {
 		}
 		mc.replacedSince = false
 		if kind == "good" {
-			mc.env = c19Env{kind: "tok", tok: tok, key: ki}
+			mc.env = c19Env{kind: "tok", tok: tok, key: ki, undecodable: mc.opaque}
 			mc.goodSigns++
 			// the returned token decodes and verifies independently of this Evidence
-			d, derr := psatoken.DecodeEvidenceFromCOSE(tok)
-			if derr != nil {
-				mc.fail(t, "token returned by %s does not decode: %v", name, derr)
+			parts, ok := icose.Split(tok)
+			if !ok || !icose.Verify(k.Alg, k.Pub, parts.Protected, parts.Payload, parts.Signature) {
+				mc.fail(t, "token returned by %s is not a COSE_Sign1 that the independent verifier accepts", name)
 			}
-			if verr := d.Verify(k.Pub); verr != nil {
-				mc.fail(t, "token returned by %s does not verify independently: %v", name, verr)
+			if enc, eerr := psatoken.EncodeClaimsToCBOR(claimsBefore); eerr != nil || !bytes.Equal(enc, parts.Payload) {
+				mc.fail(t, "the payload of the token returned by %s is not the encoding of the attached claims (%v):\n   payload  %x\n   encoding %x", name, eerr, parts.Payload, enc)
+			}
+			if !mc.opaque {
+				d, derr := psatoken.DecodeEvidenceFromCOSE(tok)
+				if derr != nil {
+					mc.fail(t, "token returned by %s does not decode: %v", name, derr)
+				}
+				if verr := d.Verify(k.Pub); verr != nil {
+					mc.fail(t, "token returned by %s does not verify independently: %v", name, verr)
+				}
+				if g0, g1 := ObserveGetters(claimsBefore), ObserveGetters(d.Claims); g0 != g1 {
+					mc.fail(t, "the token returned by %s decodes to other claims than the attached ones:\n   attached: %s\n   decoded:  %s", name, g0, g1)
+				}
 			}
 		} else {
-			mc.env = c19Env{kind: "tok", tok: tok, key: -1} // junk signature: no key verifies
+			mc.env = c19Env{kind: "tok", tok: tok, key: -1, undecodable: mc.opaque} // junk signature: no key verifies
 		}
 		mc.verifyAll(t)
 	}
@@ -248,6 +276,59 @@ func c19Run(t *rapid.T, st *Stats) {
 			}
 			mc.attached = c
 			mc.replacedSince = true
+			mc.opaque = false
+		},
+		"SetClaimsSpecial": func(t *rapid.T) {
+			// valid claims of extension profiles (registered: own codec,
+			// OID-named with inherited codec, extension of an extension;
+			// NOT registered in this process: attester-only use), or built-in
+			// claims whose free text is not valid UTF-8
+			var c psatoken.IClaims
+			opaque := false
+			what := rapid.SampledFrom([]string{"ext-p2", "inherit-p2-oid", "nested-p2", "nested-p2", "shadow-p2", "nonutf8"}).Draw(t, "special")
+			if what == "nonutf8" {
+				m := GenValid(t, drawProf(t), true)
+				var err error
+				if c, err = m.BuildSetters(); err != nil {
+					t.Fatalf("VERIF-INFRA: %v", err)
+				}
+				bad := rapid.SampledFrom(nonUTF8Texts).Draw(t, "nonutf8.text")
+				if scs, gerr := c.GetSoftwareComponents(); gerr == nil && len(scs) > 0 && genBool.Draw(t, "nonutf8.comp") {
+					_ = scs[0].SetMeasurementDesc(bad)
+				} else if err := c.SetVSI("https://v.example/" + bad); err != nil {
+					t.Skip("setter refuses the text")
+				}
+				opaque = true
+			} else {
+				es := extStyleByLabel(what)
+				m := GenValid(t, es.Base, true)
+				var own []*int64
+				for i := range es.OwnKeys {
+					v := int64(1000 + i)
+					if genBool.Draw(t, fmt.Sprintf("own%d", i)) {
+						own = append(own, &v)
+					} else {
+						own = append(own, nil)
+					}
+				}
+				var err error
+				if c, err = es.build(m, own...); err != nil {
+					t.Fatalf("VERIF-INFRA: %v", err)
+				}
+				opaque = what == "shadow-p2" // never registered in this process
+				mc.sawExt = true
+			}
+			err := mc.ev.SetClaims(c)
+			mc.log("SetClaimsSpecial(%s)", what)
+			if err != nil {
+				mc.fail(t, "SetClaims of valid %s claims failed: %v", what, err)
+			}
+			mc.attached = c
+			mc.replacedSince = true
+			mc.opaque = opaque
+			if opaque {
+				mc.sawOpaque = true
+			}
 		},
 		"Sign":            func(t *rapid.T) { doSign(t, false) },
 		"ValidateAndSign": func(t *rapid.T) { doSign(t, true) },
@@ -338,6 +419,9 @@ func c19Run(t *rapid.T, st *Stats) {
 				}
 				tok = mc.env.tok
 				keyIdx = mc.env.key
+				if mc.env.undecodable {
+					layer = "claims"
+				}
 			}
 			prevEnv := mc.env
 			if mc.sawSign {
@@ -353,6 +437,7 @@ func c19Run(t *rapid.T, st *Stats) {
 				mc.env = c19Env{kind: "tok", tok: tok, key: keyIdx}
 				mc.replacedSince = false
 				mc.lastFailed = false
+				mc.opaque = false
 				if mc.ev.Claims == nil {
 					mc.fail(t, "UnmarshalCOSE succeeded but attached no claims")
 				}
@@ -395,6 +480,12 @@ func c19Run(t *rapid.T, st *Stats) {
 			}
 			for i, tk := range [][]byte{t1, t2} {
 				k := []keyPair{k1, k2}[i]
+				if parts, ok := icose.Split(tk); !ok || !icose.Verify(k.Alg, k.Pub, parts.Protected, parts.Payload, parts.Signature) {
+					mc.fail(t, "token #%d of two consecutive signs is not accepted by the independent verifier", i+1)
+				}
+				if mc.opaque {
+					continue
+				}
 				d, err := psatoken.DecodeEvidenceFromCOSE(tk)
 				if err != nil || d.Verify(k.Pub) != nil {
 					mc.fail(t, "token #%d of two consecutive signs is not independently valid (%v)", i+1, err)
@@ -406,7 +497,7 @@ func c19Run(t *rapid.T, st *Stats) {
 					ki2 = i
 				}
 			}
-			mc.env = c19Env{kind: "tok", tok: t2, key: ki2}
+			mc.env = c19Env{kind: "tok", tok: t2, key: ki2, undecodable: mc.opaque}
 			mc.replacedSince = false
 			mc.lastFailed = false
 			mc.sawSign = true
@@ -427,6 +518,12 @@ func c19Run(t *rapid.T, st *Stats) {
 	if mc.goodSigns > 0 {
 		cls = append(cls, "good-sign")
 	}
+	if mc.sawOpaque {
+		cls = append(cls, "claims-not-decodable-here")
+	}
+	if mc.sawExt {
+		cls = append(cls, "extension-claims")
+	}
 	key := ""
 	if mc.sawFailThenVerify || mc.sawDecodeAfterSign {
 		key = strings.Join(mc.trace, ";")
@@ -438,9 +535,21 @@ func c19Run(t *rapid.T, st *Stats) {
 }
 
 func TestC19_EvidenceHistories(t *testing.T) {
-	st := NewStats("C19", "TestC19_EvidenceHistories", "rapid state machine on one Evidence (avg 30 steps): SetClaims(valid|invalid), Sign / ValidateAndSign with good signers (EdDSA, ES256, ES384, PS256 keys) and injected signer faults (error, empty signature, nil signature, junk bytes, unsupported algorithm, reserved algorithm 0), UnmarshalCOSE(valid | tampered-signature | payload-not-claims | correctly signed claims map with one wrong-typed claim | garbage | truncated | own last token), Verify with every pool key and nil, two consecutive signs. Reference model of the envelope state {none, tok(T,k), maybe(T,k)} and of claim replacement; binding clause evaluated with the independent splitter/verifier at every successful Verify. Non-trivial = history has a failed operation followed by Verify, or a decode after a sign; distinct = history")
-	st.Require = []string{"fail-then-verify", "decode-after-sign", "signer-fault", "good-sign"}
+	st := NewStats("C19", "TestC19_EvidenceHistories", "rapid state machine on one Evidence (avg 30 steps): SetClaims(valid|invalid; valid claims of registered extension profiles incl. an extension of an extension and an OID-named one, of an extension profile NOT registered in this process, and claims with non-UTF-8 free text - the latter two encode but cannot be decoded here, the binding clause is then evaluated on the payload bytes), Sign / ValidateAndSign with good signers (EdDSA, ES256, ES384, PS256 keys) and injected signer faults (error, empty signature, nil signature, junk bytes, unsupported algorithm, reserved algorithm 0), UnmarshalCOSE(valid | tampered-signature | payload-not-claims | correctly signed claims map with one wrong-typed claim | garbage | truncated | own last token), Verify with every pool key and nil, two consecutive signs. Reference model of the envelope state {none, tok(T,k), maybe(T,k)} and of claim replacement; binding clause evaluated with the independent splitter/verifier at every successful Verify. Non-trivial = history has a failed operation followed by Verify, or a decode after a sign; distinct = history")
+	st.Require = []string{"fail-then-verify", "decode-after-sign", "signer-fault", "good-sign", "claims-not-decodable-here", "extension-claims"}
 	defer st.Flush(t)
+	registerMu.Lock()
+	defer registerMu.Unlock()
+	restore := psatoken.VerifCheckpointProfiles()
+	defer restore()
+	for _, es := range extStyles {
+		if es.Label == "shadow-p2" {
+			continue // stays unregistered: the attester-only case
+		}
+		if err := psatoken.RegisterProfile(es.Impl); err != nil {
+			t.Fatalf("VERIF-INFRA: %v", err)
+		}
+	}
 	rapid.Check(t, func(t *rapid.T) { c19Run(t, st) })
 }
 
